@@ -13,6 +13,61 @@ CREDS = ["none", "empty", "wrong", "other", "ok"]
 BOOT_THROTTLED = ["start", "postconfig %s 0 %s" % (PW, hx('PostMessageCooloff = "3ms"\nSessionExpiration = "600s"\n[IRC]\n[[IRC.Operators]]\nName = "op"\nPassword = "secret"\n'))]
 
 
+def served_paths(run):
+    """(method, path) pairs outside /robustirc/v1/: the documented private routes, every pattern registered on
+    http.DefaultServeMux anywhere in the binary's import closure (regenerated), paths below subtree patterns,
+    and a few arbitrary ones"""
+    out = [(m, p) for (m, p) in PRIVATE if p != "/snapshot"]          # /snapshot has a side effect; its guard is the same dispatcher
+    for r in run.facts.get("routes", {}).get("defaultMux", []) or []:
+        pat = r.get("Pattern", "")
+        meth = "GET"
+        if " " in pat:
+            meth, pat = pat.split(" ", 1)
+        if not pat.startswith("/") or pat.startswith("/robustirc/v1/"):
+            continue
+        out.append((meth, pat))
+        if pat.endswith("/"):
+            out += [("GET", pat + "goroutine?debug=1"), ("GET", pat + "heap"), ("POST", pat + "symbol")]
+    out += [("GET", "/debug/"), ("GET", "/debug/pprof/cmdline"), ("GET", "/debug/vars"), ("GET", "/debug/requests"), ("GET", "/debug/events"),
+            ("GET", "/robustirc"), ("GET", "/robustirc/v2/session"), ("GET", "//robustirc/v1/../status"), ("GET", "/" + "".join(run.rng.choice("abcxyz/._-") for _ in range(12)))]
+    seen, res = set(), []
+    for x in out:
+        if x not in seen:
+            seen.add(x)
+            res.append(x)
+    return res
+
+
+def judge_served(ops, gl):
+    for o, g in zip(ops, gl):
+        f = o.split()
+        path, auth, st = bytes.fromhex(f[3]).decode(), f[4], kv(g).get("status")
+        if auth in ("none", "wrong") and st != "401":
+            return "unauthenticated", "%s %s with %s answered %s on a running robustirc process (expected 401: not below /robustirc/v1/, so only the network password opens it)%s" % (
+                f[2], path, "no credentials" if auth == "none" else "a wrong network password", st, "; the body contains the network password" if kv(g).get("leak") == "1" else ""), [o]
+        if auth == "pw" and st == "401":
+            return "locked-out", "%s %s with the network password answered 401" % (f[2], path), [o]
+    return None
+
+
+def served_stage(run):
+    """real robustirc processes: every path outside /robustirc/v1/ is refused without the network password"""
+    import C05
+    okn, nexe, bindir, nout = C05.build_net(run)
+    run.obligation("robustirc binary and the network harness build from /repo", okn, nout or "")
+    if not okn:
+        return ("harness", "network harness does not build", []), 0
+    pairs = served_paths(run)
+    # the correct password only where the request has no effect on the node (POST /quit would stop it, profile/trace block for 30 s)
+    safe = {"/", "/status", "/leader", "/config", "/metrics", "/nonexistent", "/debug/pprof/", "/debug/pprof/cmdline", "/debug/vars", "/debug/"}
+    ops = ["rawget %d %s %s %s" % (i % 3, m, p.encode().hex(), a) for i, (m, p) in enumerate(pairs)
+           for a in ("none", "wrong", "pw") if a != "pw" or (m == "GET" and p in safe)]
+    gl, err = C05.run_net(nexe, bindir, ops, 240)
+    if gl is None or err or len(gl) != len(ops):
+        return ("harness", "network run failed: %s" % (err or "short output"), ops), 0
+    return judge_served(ops, gl), len(ops)
+
+
 def scenario(rng, tier):
     ops = list(BOOT_THROTTLED)
     ops += ["create a", "create b", "create d", "post a ok 1 " + hx("NICK alice"), "post a ok 2 " + hx("USER u 0 * :real"), "post a ok 3 " + hx("JOIN #c"),
@@ -138,9 +193,15 @@ def check(run):
         run.obligation("correspondence: api.HTTP status/proposal decisions == Lean decision model on %d requests" % len(decisions), mism is None and not lerr, mism or lerr or "")
         if (mism or lerr) and bad is None:
             run.violation("broken:correspondence", "handler decisions differ from the model: %s" % (mism or lerr), {"detail": mism or lerr}, False)
+    sbad, sn = served_stage(run)
+    evals += sn
+    run.obligation("running robustirc processes: %d requests to paths outside /robustirc/v1/ (documented private routes, every DefaultServeMux registration in the binary, arbitrary paths) answer 401 without the network password" % sn,
+                   sbad is None, sbad[1] if sbad else "")
     if bad:
         sig, why, rops = bad
         run.violation("oracle:" + sig, why, {"kind": "api", "ops": rops, "why": why}, True)
+    elif sbad:
+        run.violation("oracle:served-" + sbad[0], sbad[1], {"kind": "net", "ops": sbad[2], "why": sbad[1]}, sbad[0] != "harness")
     elif not proved:
         failed = [o[0] for o in run.failed_obligations()]
         run.violation("broken:" + (failed[0] if failed else "?")[:40], "proof obligations no longer check: %s" % failed, {"broken": failed, "detail": [o[2][-1500:] for o in run.failed_obligations()]}, False)
@@ -149,7 +210,7 @@ def check(run):
                          "traces_validated_against_impl": len(decisions), "exhaustive": True,
                          "matrix": "public: {post,get,delete} x targets {logged-in, fresh, deleted, not-yet-seen, overlong, non-numeric, empty} x creds {none, empty, wrong, other session's, correct}; private: %d method/path pairs x {no auth, wrong, correct}" % len(PRIVATE)})
     run.assumptions += ["net/http routing and BasicAuth parsing as documented", "CreateSession's 128 random bytes are unguessable and distinct per session",
-                        "a single-node raft: proxying to a leader is not exercised"]
+                        "a single-node raft for the request matrix: proxying to a leader is not exercised there; the served-routes stage runs three real processes"]
     return run.finish(rule="full request matrix on the real handlers (httptest + in-process raft); refused requests must answer non-200, append no log entry and leave the canonical state dump unchanged; distinct = (route, credential kind) pairs")
 
 
@@ -157,6 +218,15 @@ def replay(run, path):
     import json
     r = json.load(open(path))
     ops = r.get("replay", {}).get("ops", [])
+    if r.get("replay", {}).get("kind") == "net":
+        import C05
+        okn, nexe, bindir, nout = C05.build_net(run)
+        gl, err = C05.run_net(nexe, bindir, ops, 240)
+        for o, g in zip(ops, gl or []):
+            print("%s %s [%s] -> %s" % (o.split()[2], bytes.fromhex(o.split()[3]).decode(), o.split()[4], g))
+        b = judge_served(ops, gl or [])
+        print("oracle:", b[1] if b else None)
+        return 1 if b else 0
     ok, exe, out = api_run.build()
     gl, err = api_run.run_ops(exe, ops, tag="c11r")
     for o, g in zip(ops, gl):
